@@ -9,6 +9,7 @@ import (
 	"os"
 	"os/exec"
 	"path/filepath"
+	"runtime"
 	"strings"
 	"sync"
 	"sync/atomic"
@@ -35,6 +36,8 @@ import (
 // unsynchronised traffic, 2-4 report producers, millisecond transaction timers, injected periodic ticks, then Stop
 // (PfcpServer.Stop, then the driver's periodic server Close — the order pkg/app uses) and waits for the goroutines.
 func init() { register("stop", runStop); register("stop-child", runStopChild) }
+
+var usageSRRs int64
 
 func runStop(c *ctx) {
 	netn := 230
@@ -100,7 +103,10 @@ func runStop(c *ctx) {
 		e.start()
 		n := 300
 		peers := []*net.UDPConn{e.smf, e.fence}
-		type res struct{ got map[uint32]int; foreign int }
+		type res struct {
+			got     map[uint32]int
+			foreign int
+		}
 		out := make([]res, len(peers))
 		var wgb sync.WaitGroup
 		for k, conn := range peers {
@@ -174,6 +180,10 @@ func runStop(c *ctx) {
 	for i := 0; i < runs; i++ {
 		seed := c.rng.u64() >> 1
 		stopms := 5 + c.rng.intn(80)
+		if i%3 == 2 {
+			// long enough for periodic ticks to report several sessions while everything else goes on
+			stopms = 250 + c.rng.intn(200)
+		}
 		logp := filepath.Join(dir, fmt.Sprintf("race%d", i))
 		cmd := exec.Command(self, "-seed", fmt.Sprint(seed), "-out", "-", "stop-child", fmt.Sprintf("net=%d", netn), fmt.Sprintf("stopms=%d", stopms))
 		cmd.Env = append(os.Environ(), "GORACE=log_path="+logp+" exitcode=0 halt_on_error=0")
@@ -242,6 +252,8 @@ func runStopChild(c *ctx) {
 	cfg := &factory.Config{Pfcp: &factory.Pfcp{Addr: e.ip(8), NodeID: e.ip(8), RetransTimeout: time.Duration(1+r.intn(3)) * time.Millisecond, MaxRetrans: uint8(1 + r.intn(3))}}
 	e.srv = pfcp.NewPfcpServer(cfg, e.d.g)
 	e.d.g.HandleReport(e.srv)
+	// the kernel answers every usage query: a periodic tick then hands one report per session to the event loop
+	e.d.pk.reports = func(cmd uint8, seid uint64, urr uint32) [][]byte { return [][]byte{usaReportAttr(seid, urr)} }
 	e.wg = &sync.WaitGroup{}
 	e.srv.Start(e.wg)
 	for i := 0; i < 200 && !e.doFence(50*time.Millisecond); i++ {
@@ -311,6 +323,9 @@ func runStopChild(c *ctx) {
 						break
 					}
 					if m, err := message.Parse(buf[:n]); err == nil {
+						if sr, ok := m.(*message.SessionReportRequest); ok && len(sr.UsageReport) > 0 {
+							atomic.AddInt64(&usageSRRs, 1)
+						}
 						if er, ok := m.(*message.SessionEstablishmentResponse); ok && er.UPFSEID != nil {
 							if f, err := er.UPFSEID.FSEID(); err == nil {
 								ups = append(ups, f.SEID)
@@ -330,6 +345,13 @@ func runStopChild(c *ctx) {
 			defer bg.Done()
 			bs := forwarder.VerifBuffServer(e.d.g)
 			for atomic.LoadInt32(&stop) < 2 {
+				// leave room in the loop's report queue: with it permanently full the periodic server (one more
+				// producer) hardly ever gets a slot and the periodic path would go unexercised.  After Stop the
+				// producers run unthrottled (late notifications are the point then).
+				if atomic.LoadInt32(&stop) == 0 && pfcp.VerifSrLen(e.srv) > 64 {
+					time.Sleep(100 * time.Microsecond)
+					continue
+				}
 				quiet(func() { bs.ServeMsg(bufferMsg(uint64(1+rk.intn(6)), 1, 0x0c, rk.bytes(20), true, rk.chance(30))) })
 				if rk.chance(30) {
 					time.Sleep(time.Duration(rk.intn(300)) * time.Microsecond)
@@ -345,11 +367,25 @@ func runStopChild(c *ctx) {
 		defer tg.Done()
 		ps := forwarder.VerifPerio(e.d.g)
 		for atomic.LoadInt32(&stop) < 1 {
-			quiet(func() { perio.VerifTick(ps, time.Hour) })
+			// a tick is a netlink round trip; ticks posted faster than they are served only queue up in front of the
+			// registrations the loop posts, and every tick would then see one session at most
+			if perio.VerifQueueLen(ps) < 3 {
+				quiet(func() { perio.VerifTick(ps, time.Hour) })
+			}
 			time.Sleep(500 * time.Microsecond)
 		}
 	}()
 	time.Sleep(time.Duration(stopms) * time.Millisecond)
+	if os.Getenv("VERIF_DEBUG") != "" {
+		fmt.Fprintln(os.Stderr, "child dump:", pfcp.VerifDump(e.srv)[:400], " perio:", perio.VerifDump(forwarder.VerifPerio(e.d.g)), "qlen", perio.VerifQueueLen(forwarder.VerifPerio(e.d.g)))
+		buf := make([]byte, 1<<20)
+		n := runtime.Stack(buf, true)
+		for _, g := range strings.Split(string(buf[:n]), "\n\n") {
+			if strings.Contains(g, "perio.(*Server).Serve") {
+				fmt.Fprintln(os.Stderr, g)
+			}
+		}
+	}
 	// the order pkg/app uses: stop the PFCP server, then close the driver (its periodic server)
 	atomic.StoreInt32(&stop, 1)
 	e.srv.Stop()
@@ -373,6 +409,7 @@ func runStopChild(c *ctx) {
 	case <-time.After(3 * time.Second):
 		exited = 0 // a producer is stuck on the stopped server
 	}
+	fmt.Fprintf(os.Stderr, "child: %d Session Report Request(s) with usage reports reached the SMFs\n", atomic.LoadInt64(&usageSRRs))
 	fmt.Printf("CHILD exited=%d\n", exited)
 	os.Stdout.Sync()
 	os.Exit(0)
